@@ -127,15 +127,17 @@ pub fn case(ctx: &mut Ctx, phases: &str) {
             let (logger, progs) = phase.split_once('@').unwrap();
             let progs: Vec<String> = progs.split('/').map(|s| s.to_string()).collect();
             // S: a live logger whose queue holds 2 events and whose consumer starts late (callers must wait, not lose events)
-            let (sender, receiver) = sync_channel::<LogEvent>(if logger == "S" { 2 } else { 100_000 });
+            // X: as S with a queue of one, and the guard is dropped while a thread is still blocked inside a logging call
+            let (sender, receiver) = sync_channel::<LogEvent>(if logger == "S" { 2 } else if logger == "X" { 1 } else { 100_000 });
             let guard_opt = if logger == "N" { None } else { Some(set_global_logger(sender.clone()).expect("set logger")) };
             let mut consumer = None;
             let receiver = if logger == "D" {
                 drop(receiver);
                 None
-            } else if logger == "S" {
+            } else if logger == "S" || logger == "X" {
+                let wait = if logger == "X" { 60 } else { 15 };
                 consumer = Some(std::thread::spawn(move || {
-                    std::thread::sleep(std::time::Duration::from_millis(15));
+                    std::thread::sleep(std::time::Duration::from_millis(wait));
                     let mut evs = Vec::new();
                     while let Ok(e) = receiver.recv_timeout(std::time::Duration::from_secs(5)) { evs.push(canon(&e)); }
                     evs
@@ -145,6 +147,11 @@ pub fn case(ctx: &mut Ctx, phases: &str) {
                 Some(receiver)
             };
             let handles: Vec<_> = progs.iter().cloned().map(|p| std::thread::spawn(move || { let r = run_program(&p); clear_thread_local_log_tags(); r })).collect();
+            let mut guard_opt = guard_opt;
+            if logger == "X" {
+                std::thread::sleep(std::time::Duration::from_millis(20));
+                drop(guard_opt.take());
+            }
             let results: Vec<String> = handles.into_iter().map(|h| h.join().unwrap().join(",")).collect();
             drop(guard_opt);
             drop(sender);
@@ -169,18 +176,18 @@ pub fn run(ctx: &mut Ctx) {
         let nphases = rng.range(1, 3);
         let mut phases = Vec::new();
         for _ in 0..nphases {
-            let logger = match rng.below(8) { 0 => "D", 1 => "N", 2 => "S", _ => "A" };
-            let nthreads = rng.range(1, 8);
+            let logger = match rng.below(9) { 0 => "D", 1 => "N", 2 => "S", 3 => "X", _ => "A" };
+            let nthreads = if logger == "X" { 1 } else { rng.range(1, 8) };
             let mut progs = Vec::new();
             for t in 0..nthreads {
-                let len = rng.range(1, 8);
+                let len = if logger == "X" { rng.range(3, 5) } else { rng.range(1, 8) };
                 let mut ops = Vec::new();
                 // now and then a thread carries many tags of its own (sorting 20+ tags must still be stable)
                 if rng.chance(1, 10) {
                     for k in 0..rng.range(10, 30) { ops.push(format!("a{}={}", h(*rng.pick(&names)), h(&format!("T{t}{k}")))); }
                 }
                 for k in 0..len {
-                    ops.push(match rng.below(10) {
+                    ops.push(match if logger == "X" { 9 } else { rng.below(10) } {
                         0 | 1 => format!("a{}={}", h(*rng.pick(&names)), h(&format!("v{t}{k}"))),
                         2 => "c".to_string(),
                         3 | 4 => {
@@ -199,6 +206,10 @@ pub fn run(ctx: &mut Ctx) {
                 progs.push(ops.join(","));
             }
             phases.push(format!("{logger}@{}", progs.join("/")));
+        }
+        // after an X phase another logger must be installable, and get that phase's events
+        if phases.last().is_some_and(|p| p.starts_with("X@")) {
+            phases.push(format!("A@l{}:{}:", "i", h("t0-0")));
         }
         if ctx.mine(i) {
             case(ctx, &phases.join("|"));
